@@ -294,3 +294,78 @@ def check_none_deref(ctx, functions, rule='A10b'):
                        f'{fn.module.relpath}:{nd.lineno}',
                        f'`{name}` (initialised to None) is not dereferenced while it may still be None', detail)
     return n
+
+
+# ------------------------------------------------------------------ (c) None sentinel tested by truthiness
+_CONTAINER_CALLS = ('set', 'list', 'dict', 'frozenset', 'np.array', 'np.zeros', 'np.ones', 'np.where', 'np.unique')
+
+
+def _container_valued(v):
+    if isinstance(v, (ast.Set, ast.List, ast.Dict, ast.SetComp, ast.ListComp, ast.DictComp)):
+        return True
+    if isinstance(v, ast.BinOp) and isinstance(v.op, (ast.BitAnd, ast.BitOr, ast.Sub, ast.Add)):
+        return True
+    if isinstance(v, ast.IfExp):
+        return _container_valued(v.body) or _container_valued(v.orelse)
+    if isinstance(v, ast.Call) and norm(v.func) in _CONTAINER_CALLS:
+        return True
+    return False
+
+
+def sentinel_truthiness_sites(fn_node):
+    """(name, test expr) where a local that is initialised to None and elsewhere bound to a container-valued
+    expression is tested by bare truthiness."""
+    none_names, cont_names = set(), set()
+    body = ast.Module(body=list(fn_node.body), type_ignores=[])
+    for s in walk_no_nested(body):
+        if isinstance(s, ast.Assign):
+            for t in s.targets:
+                for tt in (t.elts if isinstance(t, ast.Tuple) else [t]):
+                    if isinstance(tt, ast.Name):
+                        if isinstance(s.value, ast.Constant) and s.value.value is None:
+                            none_names.add(tt.id)
+                        elif _container_valued(s.value):
+                            cont_names.add(tt.id)
+    cand = none_names & cont_names
+    out = []
+    if not cand:
+        return out
+    for s in walk_no_nested(body):
+        tests = []
+        if isinstance(s, (ast.If, ast.While, ast.IfExp)):
+            tests.append(s.test)
+        if isinstance(s, ast.BoolOp):
+            tests += list(s.values[:-1])
+        for t in tests:
+            for atom, truth in implied_facts(t, True) + implied_facts(t, False):
+                if isinstance(atom, ast.Name) and atom.id in cand and (atom.id, id(t)) not in {(a, id(b)) for a, b in out}:
+                    out.append((atom.id, t))
+    return out
+
+
+def check_sentinel_truthiness(ctx, functions, rule='A10c'):
+    """Zero expected instances on a healthy tree; a positive control fixture must match on every run."""
+    import os
+    fx = os.path.join(os.path.dirname(os.path.dirname(os.path.abspath(__file__))), 'fixtures',
+                      'sentinel_truthiness.py')
+    with open(fx) as fp:
+        tree = ast.parse(fp.read())
+    hits = {f.name: sentinel_truthiness_sites(f) for f in tree.body if isinstance(f, ast.FunctionDef)}
+    if len(hits.get('running_intersection', [])) != 1 or hits.get('running_intersection_ok'):
+        raise AnalysisError('A10c: the positive control fixture is not recognised as designed')
+    n = 0
+    scanned = 0
+    for fn in functions:
+        if isinstance(fn.node, ast.Lambda):
+            continue
+        scanned += 1
+        for name, t in sentinel_truthiness_sites(fn.node):
+            n += 1
+            ctx.touch(fn)
+            ctx.ob(rule, fkey(fn, rule, f'{name}:{short(t, 40)}'), False, f'{fn.module.relpath}:{t.lineno}',
+                   f'`{name}` uses None as the "not set yet" sentinel and is elsewhere bound to a container: it '
+                   f'must be tested with `is None` - a truthiness test conflates the empty container with the '
+                   f'sentinel', f'truthiness test `{short(t, 60)}`')
+    ctx.ob(rule, f'program:{rule}:scan', True, 'adsg_core', 'scan for None sentinels tested by truthiness',
+           f'{scanned} functions scanned, {n} site(s); positive control matched', nontrivial=False)
+    return n
